@@ -750,6 +750,9 @@ func main() {
 	if *prop == "C14" {
 		runC14ConfigPath(r)
 	}
+	if *prop == "C16" {
+		runC16TwoClients(r)
+	}
 	if *prop == "C09" {
 		runC09NonceMatrix(r)
 		runC09Interop(r)
